@@ -180,3 +180,79 @@ func VerifC10GappedWalk() {
 	verifAssert("close", it.Close() == nil)
 	verifReach("end")
 }
+
+// VerifC10MixedWalk: like VerifC10GappedWalk, but every step chooses its direction: after a seek to either end or
+// to an arbitrary timestamp, a walk that turns around (also after it ran past the last or before the first
+// domain) still returns at every step exactly the samples inside the reported view, and each view is adjacent
+// to the previous one on the side the step came from.
+func VerifC10MixedWalk() {
+	mk := func(a, b int64) []byte {
+		var out []byte
+		for _, v := range []int64{a, b} {
+			var x [8]byte
+			telem.ByteOrder.PutUint64(x[:], uint64(v))
+			out = append(out, x[:]...)
+		}
+		return out
+	}
+	specs := []domain.VerifDomainSpec{
+		{Start: 10, End: 15, Data: mk(10, 14)},
+		{Start: 30, End: 35, Data: mk(30, 34)},
+		{Start: 50, End: 55, Data: mk(50, 54)},
+	}
+	all := []telem.TimeStamp{10, 14, 30, 34, 50, 54}
+	ddb := domain.VerifBuildDB(specs)
+	ch := channel.Channel{Key: 1, Name: "idx", IsIndex: true, Index: 1, DataType: telem.TimeStampT}
+	db := &DB{domain: ddb, closed: &atomic.Bool{}, leadingAlignment: &atomic.Uint32{}, wrapError: func(err error) error { return err },
+		resolver: newOffsetResolver(ch.DataType, ddbInstr()), cfg: Config{Channel: ch}}
+	db.idx = &index.Domain{DB: ddb, Channel: ch}
+	ctx := context.Background()
+	b := telem.TimeRange{Start: 0, End: 100}
+	it, err := db.OpenIterator(IterRange(b))
+	verifAssume(err == nil)
+	switch verifLen("seek", 0, 3) {
+	case 0:
+		verifAssume(it.SeekFirst(ctx))
+	case 1:
+		verifAssume(it.SeekLast(ctx))
+	case 2:
+		ts := telem.TimeStamp(verifInt64("seek-ts"))
+		verifAssume(ts >= 0 && ts < 100)
+		verifAssume(it.SeekGE(ctx, ts))
+	default:
+		ts := telem.TimeStamp(verifInt64("seek-ts"))
+		verifAssume(ts >= 0 && ts < 100)
+		verifAssume(it.SeekLE(ctx, ts))
+	}
+	prev := it.View()
+	steps := verifParam("steps", 3)
+	for k := 0; k < steps; k++ {
+		span := telem.TimeSpan(verifInt64("span"))
+		verifAssume(span > 0 && span <= 60)
+		forward := verifBool("forward")
+		var valid bool
+		if forward {
+			valid = it.Next(ctx, span)
+		} else {
+			valid = it.Prev(ctx, span)
+		}
+		v := it.View()
+		if forward && prev.End != b.End {
+			verifAssert("mixed-next-adjacent", v.Start == prev.End)
+		}
+		if !forward && prev.Start != b.Start {
+			verifAssert("mixed-prev-adjacent", v.End == prev.Start)
+		}
+		got := verifFrameStamps(it)
+		verifObserve("view.start", int64(v.Start))
+		verifObserve("view.end", int64(v.End))
+		for _, g := range got {
+			verifObserve("got", int64(g))
+		}
+		verifAssert("mixed-exact", verifHExactly(got, all, v))
+		verifAssert("mixed-valid-iff-samples", valid == (len(got) > 0))
+		prev = v
+	}
+	verifAssert("close", it.Close() == nil)
+	verifReach("end")
+}
